@@ -609,6 +609,15 @@ class BaseWorklist(list):
         dst_start, dst_end = dst_wells[0], dst_wells[-1]
         excluded_dst_wells = set(range(dst_start, dst_end + 1)).difference(dst_wells)
 
+        # update volume tracking first, so that a step refused by the volume checks is never emitted
+        n_dst = len(dst_wells)
+        source.remove(source.wells[0, source_column], volume * n_dst, label=label)
+        src_composition = source.get_well_composition(source.wells[0, source_column])
+        destination.add(destination_wells, volume, label=label, compositions=[src_composition] * n_dst)
+        if destination == source:
+            # like transfer(): one history entry per operation when it stays within one labware
+            source.condense_log(2, label=label)
+
         # hand over to low-level command implementation
         self.comment(label)
         self.reagent_distribution(
@@ -629,15 +638,6 @@ class BaseWorklist(list):
             dst_rack_id=dst_rack_id,
             dst_rack_type=dst_rack_type,
         )
-
-        # update volume tracking
-        n_dst = len(dst_wells)
-        source.remove(source.wells[0, source_column], volume * n_dst, label=label)
-        src_composition = source.get_well_composition(source.wells[0, source_column])
-        destination.add(destination_wells, volume, label=label, compositions=[src_composition] * n_dst)
-        if destination == source:
-            # like transfer(): one history entry per operation when it stays within one labware
-            source.condense_log(2, label=label)
         return
 
     def __repr__(self) -> str:
